@@ -1,7 +1,48 @@
-/- C20 partial-merkle-tree ops of the line protocol (ops `pmt…`). Core-only. Stub until Pmt.lean lands. -/
+/- C20 partial-merkle-tree ops of the line protocol (ops `pmt…`). Core-only. -/
+import BV.Common.Hex
+import BV.Common.Sha256
+import BV.C20.Pmt
 namespace BV.C20.DriverPmt
+open BV.Hex BV.C20.Pmt
+
+abbrev Hash := List UInt8
+
+def hh (l r : Hash) : Hash := BV.Sha256.hash2List (l ++ r)
+
+def le (n k : Nat) : List UInt8 := natLE n k
+
+def markMatch : List UInt8 := "C20-match-mark".toUTF8.toList
+def markNo : List UInt8 := "C20-nomatch-mk".toUTF8.toList
+
+/-- the synthetic transaction `i` of block `seed` (same layout as harness/p20/pmt.go) -/
+def txBytes (seed i : Nat) (m : Bool) : List UInt8 :=
+  le 2 4 ++ [1] ++ (List.replicate 8 (le seed 4)).flatten ++ le i 4 ++ [0] ++ le 0xffffffff 4 ++
+  [1] ++ le i 8 ++ [15, 14] ++ (if m then markMatch else markNo) ++ le 0 4
+
+def txid (seed i : Nat) (m : Bool) : Hash := BV.Sha256.hash2List (txBytes seed i m)
+
+def parseBits? (s : String) : Option (List Bool) :=
+  if s == "-" then some [] else
+  s.toList.mapM (fun c => if c == '1' then some true else if c == '0' then some false else none)
+
+def natsTok (l : List Nat) : String := if l.isEmpty then "-" else ",".intercalate (l.map toString)
 
 def handle : List String → String
-  | _ => "unimplemented"
+  | ["pmt", seed, bits] =>
+    match seed.toNat?, parseBits? bits with
+    | some seed, some matched =>
+      let n := matched.length
+      if n = 0 then "panic" else
+      let leaves := (List.range n).map (fun i => txid seed i (matched.getD i false))
+      let mb := newMerkleBlock hh [] leaves matched
+      let flags := packFlags mb.bits
+      let root := merkleRoot hh [] leaves
+      let want := (mb.matchedIdx.map (fun i => (i, leaves.getD i [])))
+      let x : Bool := match extract hh n flags mb.hashes with
+        | some (r, m) => r == root && m == want
+        | none => false
+      s!"idx={natsTok mb.matchedIdx} tx={mb.numTx} flags={listToHex flags} hashes={",".intercalate (mb.hashes.map listToHex)} root={listToHex root} x={if x then "1" else "0"}"
+    | _, _ => "bad-op"
+  | _ => "bad-op"
 
 end BV.C20.DriverPmt
